@@ -18,7 +18,12 @@ PROPS["C18"] = dict(
          "500..3000 elements, 5% negative/zero/extreme values (|v| < 2^42), 5% both inputs served from one and the same slice. Source kinds: WrapIntSlice, a wrapper without Reset (Reset must return an "
          "error; the mixer is not used afterwards because its state after a refused Reset is undocumented), and a resettable "
          "source whose final HasNext says true while the following Next returns (0,false) and which stays exhausted "
-         "afterwards (iterator.go imparity; the undelivered element is not part of the input). Sources that revive after "
+         "afterwards (iterator.go imparity; the undelivered element is not part of the input), and VALUE-TYPE (non-pointer) implementations - nothing in the Iterator "
+         "interface asks for a pointer: valfunc = an adapter struct of closures handed over by value (func fields, so the dynamic type is not comparable), "
+         "valfunc_noreset = the same adapter without Reset, valslice = struct{elements []int; position *int} by value (slice field, not comparable), valcmp = "
+         "struct{*state} by value (comparable); for one input or both, 10% of the rapid draws put one and the same kind on both inputs (sessions: on every leaf), "
+         "and exhaustive part 3 runs every ordered pair of kinds with a value kind on at least one side (same type on both sides included) x all input pairs over {1,2} of "
+         "length 0..2 x 5 selectors x every program over {h,n,r} to depth 4 (thorough 5), pairs with a Reset-less source under the same first-Reset-is-last reduction. Sources that revive after "
          "reporting exhaustion are not generated. non-trivial = the selector decided a tie between equal heads, or exactly one "
          "input is empty, or a successful Reset happened midway / on a loaded look-ahead / after the end, or HasNext was "
          "called twice in a row, or a lying final HasNext was consumed, or Init was called again while a look-ahead was pending; distinct = FNV hash of the whole case. "
